@@ -61,6 +61,9 @@ def cell(tree, where):
     return None
 
 
+_edit_counter = [0]
+
+
 def apply_edit(lst, kind):
     from lark import Token
     if lst is None:
@@ -71,7 +74,13 @@ def apply_edit(lst, kind):
         if lst:
             lst.pop()
     elif lst:
-        lst[0] = Token("JUNK", "J")
+        _edit_counter[0] += 1
+        if isinstance(lst[0], Token) and _edit_counter[0] % 2:
+            # "replace" in place: the leaf object itself is edited (type and value of a lark Token are plain attributes)
+            lst[0].type = "JUNK"
+            lst[0].value = "J"
+        else:
+            lst[0] = Token("JUNK", "J")
 
 
 _flood_counter = [0]
@@ -114,6 +123,10 @@ def replay_history(which, hist, acc):
                     shape = ahb.tree_shape(parsers()["cond"][0](strings[a[1]]))
             except SyntaxError:
                 t, shape = None, "SyntaxError"
+            except MachineryError:
+                raise
+            except Exception as e:  # noqa: BLE001 - total: a parse that raises anything else is a (wrong) result of that parse
+                t, shape = None, f"raised {type(e).__name__}: {str(e)[:120]}"
             handed.append(t)
             if shape != pristine[a[1]]:
                 acc["viol"].append((f"{which} parser, history {list(hist[:step + 1])}: parse({strings[a[1]]!r}) gave {shape}, "
